@@ -126,7 +126,87 @@ def controls(ck):
     ck.control("R16.1", "Skipper::pos_next_even (unlisted)", pr2.fired(r"^R16\.1@Skipper::pos_next_even#unclassified$"))
 
 
+# R16.3: recursive data types of the workspace.  The compiler-generated drop glue (and derived Clone / Debug) of a type that contains
+# itself recurses once per link.  class "tree": several self occurrences per node, the depth is the nesting of the data (allowed, like
+# the "nesting" class of R16.1); class "query": the depth is the size of the query; class "list": ONE self occurrence per node, the
+# depth is the number of elements - allowed only with a hand-written, loop-based Drop.
+RECURSIVE_TYPES = {
+    "sophia_api::term::_simple::SimpleTerm": ("tree", "a quoted triple holds three terms: depth = nesting of quoted triples"),
+    "sophia_sparql::expression::ArcExpression": ("query", "operands of an expression: depth = nesting of the query's expressions"),
+    "sophia_term::arc_term::ArcTerm": ("tree", "a quoted triple holds three terms"),
+    "sophia_term::rc_term::RcTerm": ("tree", "a quoted triple holds three terms"),
+    "sophia_sparql::matcher::SparqlMatcher": ("tree", "a quoted-triple pattern holds three matchers: depth = nesting of the query's patterns"),
+    "sophia_rio::serializer::Stack": ("list", "one node per quoted triple of the statement being converted (not per nesting level)"),
+}
+
+
+def fn_has_loop(f):
+    """a back edge: some block has a successor that dominates it"""
+    doms = f.dominators()
+    for b in range(len(f.blocks)):
+        if f.blocks[b].get("cleanup"):
+            continue
+        for s_ in f.succs(b):
+            if s_ in doms.get(b, ()):
+                return True
+    return False
+
+
+def self_occurrences(adt):
+    """per variant: how often the type itself occurs in the field types (an array `[Self; N]` counts N times); the field types
+    print paths relative to the crate, as the ADT's own `name` does"""
+    name = re.escape(adt["name"])
+    pat = r"(?<![\w:])%s(?![\w])(?:<[^;\[\]]*>)?" % name
+    out = []
+    for v in adt.get("variants", []):
+        n = 0
+        for f in v.get("fields", []):
+            ty = f.get("ty", "")
+            arrays = re.findall(r"\[\s*%s\s*;\s*(\d+)\s*\]" % pat, ty)
+            n += sum(int(k) for k in arrays)
+            n += len(re.findall(pat, ty)) - len(arrays)
+        out.append(n)
+    return out
+
+
+def recursive_types_rule(ck, facts):
+    import core
+    fx = core.fixture_facts()
+    for name, expect in (("PosChain", True), ("NegChain", False)):
+        adt = [a for d, a in fx.adts.items() if d.endswith("::" + name)]
+        has_loop_drop = any(re.search(r"<%s(<.*>)? as std::ops::Drop>::drop$" % name, f.name) and fn_has_loop(f) for f in fx.fns.values())
+        ck.control("R16.3", name, len(adt) == 1 and max(self_occurrences(adt[0]) or [0]) == 1 and not has_loop_drop, expect)
+    n = 0
+    for d, adt in sorted(facts.adts.items()):
+        if adt.get("coroutine") or not adt.get("crate", "").startswith("sophia"):
+            continue
+        occ = self_occurrences(adt)
+        if not occ or max(occ) == 0:
+            continue
+        n += 1
+        ent = RECURSIVE_TYPES.get(d)
+        loc = "%s:%s" % (adt.get("file"), adt.get("line"))
+        if ent is None:
+            ck.bad("R16.3", "R16.3@%s#unaudited-recursive-type" % adt["name"], "%s contains itself (%s occurrence(s) per variant): its drop glue recurses once "
+                   "per link; classify it (tree / query / list) in rules/c16.py" % (adt["name"], occ), loc)
+            continue
+        cls, why = ent
+        if cls == "list" or max(occ) == 1 and cls == "tree":
+            short = adt["def"].split("::")[-1]
+            drops = [f for f in facts.fns.values() if f.crate == adt["crate"] and re.search(r"<(\w+::)*%s(<.*>)? as std::ops::Drop>::drop$" % short, f.name)]
+            if drops and all(fn_has_loop(f) for f in drops):
+                ck.ok("R16.3", "%s (list-shaped: %s) unlinks its nodes in a loop (hand-written Drop)" % (adt["name"], why))
+            else:
+                ck.bad("R16.3", "R16.3@%s#recursive-drop" % adt["name"], "%s is a linked list (%s) without a loop-based Drop: the compiler-generated drop "
+                       "glue recurses once per node, so one statement with 65 535 quoted triples (nesting depth 16) overflows a 2 MiB stack in "
+                       "the streaming Turtle / TriG / RDF-XML serializers" % (adt["name"], why), loc)
+        else:
+            ck.ok("R16.3", "%s: %s (%s)" % (adt["name"], cls, why), nontrivial=False)
+    ck.floor("R16.3", "recursive data types of the workspace", n, 6)
+
+
 def run(ck, facts, tier):
+    recursive_types_rule(ck, facts)
     facts.require_crates(["sophia_api", "sophia_inmem", "sophia_turtle", "sophia_sparql", "sophia_jsonld", "sophia_c14n"])
     controls(ck)
     analyse(ck, facts, TABLE, floor=20)
